@@ -33,6 +33,7 @@ func (m *Machine) Run(t *rapid.T, weights map[string]int, minSteps, maxSteps int
 		"newAccount":      func() { m.OpNewAccount(t, fate()) },
 		"newWOAcct":       func() { m.OpNewWatchOnlyAccount(t, fate()) },
 		"rename":          func() { m.OpRename(t) },
+		"invalidate":      func() { m.OpInvalidate(t) },
 		"importKey":       func() { m.OpImportKey(t) },
 		"importScript":    func() { m.OpImportScript(t) },
 		"importPubKey":    func() { m.OpImportPubKey(t) },
@@ -82,5 +83,5 @@ func (m *Machine) Run(t *rapid.T, weights map[string]int, minSteps, maxSteps int
 // converted to watching-only in the middle of a history.
 var afterConversion = map[string]bool{
 	"next": true, "lookup": true, "markUsed": true, "importKey": true, "importPubKey": true, "setSynced": true, "restart": true,
-	"rename": true, "convert": true,
+	"rename": true, "convert": true, "invalidate": true,
 }
